@@ -169,6 +169,14 @@ theorem C26_lookup_eq_spec (c : PDCfg) (hc : c.Good) (ops : List Op) (key : Byte
     obtain ⟨ha1, ha2⟩ := (hmem a).mp ha
     exact lookup_complete c hops _ hI hP key a ha1 ha2
 
+/-- **Reload.**  A restart (load the persisted regions, re-upsert them in id order, as
+`cmd/nokv/pd.go` does) rebuilds exactly the catalog — whatever the history, and whether or not
+inverted ranges are rejected. -/
+theorem C26_reload (c : PDCfg) (hc : c.OpsGood) (ops : List Op) :
+    ∀ x, x ∈ restart c (run c ops) ↔ x ∈ run c ops :=
+  restart_mem c hc _ (inv_run c hc ops)
+    (fun hr => proper_foldl c ops (Or.inl hr) (by intro a ha; simp at ha))
+
 /-! ### as-is: inverted ranges are accepted (finding `pd-inverted-range`) -/
 
 /-- What still holds when inverted ranges are *not* rejected: uniqueness and pairwise
